@@ -209,8 +209,22 @@ pub fn live(seed: u64, n: usize, out: &mut dyn Write) {
                 continue;
             }
             drop(shared);
-            if let Some(jh) = handle.lock().unwrap().take() {
-                let _ = jh.join();
+            // the thread has finished its spans (its JoinHandle may not have been stored yet when
+            // `started` was seen: wait for the thread's own signal, then join)
+            let t0 = Instant::now();
+            while caught && !done.load(Ordering::SeqCst) && t0.elapsed() < Duration::from_millis(10000) {
+                std::thread::sleep(Duration::from_millis(1));
+            }
+            let t0 = Instant::now();
+            loop {
+                if let Some(jh) = handle.lock().unwrap().take() {
+                    let _ = jh.join();
+                    break;
+                }
+                if !caught || t0.elapsed() > Duration::from_millis(2000) {
+                    break;
+                }
+                std::thread::sleep(Duration::from_millis(1));
             }
             fastrace::flush();
             drain(&mut delivered);
@@ -838,6 +852,73 @@ pub fn cflush(seed: u64, n: usize, out: &mut dyn Write) {
             let _ = writeln!(out, "L scenario={} concurrent-flush stall_ms={} stalled={} => {}", k, ms, stalled, verdict);
             stall_ms.store(0, Ordering::SeqCst);
         }
+    }
+    // many collector cycles at once: two threads call flush() in a loop while a third starts and
+    // finishes small traces; cycles are serialised by the collector's lock, so in the end every
+    // span has been delivered exactly once and nothing is retained
+    {
+        let stop = Arc::new(AtomicBool::new(false));
+        let flushed = Arc::new(AtomicU64::new(0));
+        let flushers: Vec<_> = (0..3).map(|_| {
+            let (st, fl) = (stop.clone(), flushed.clone());
+            std::thread::spawn(move || {
+                let mut c = 0u64;
+                while !st.load(Ordering::SeqCst) {
+                    fastrace::flush();
+                    fl.fetch_add(1, Ordering::SeqCst);
+                    c += 1;
+                }
+                c
+            })
+        }).collect();
+        let want = 150 + 50 * n as u64;
+        let base = ((seed as u128) << 64) | 0x77_0000;
+        let t0 = Instant::now();
+        let mut ntr = 0usize;
+        let mut open_roots: std::collections::VecDeque<Span> = Default::default();
+        // traces keep coming until enough cycles have run (at most 4 s)
+        while (flushed.load(Ordering::SeqCst) < want && t0.elapsed() < Duration::from_secs(4) && ntr < 200_000) || ntr < 50 {
+            // a root stays open for a few iterations: its start and its commit are drained by
+            // different cycles
+            let root = Span::root("hm-root", SpanContext::new(TraceId(base + ntr as u128), SpanId(1)));
+            let child = Span::enter_with_parent("hm-child", &root);
+            drop(child);
+            open_roots.push_back(root);
+            if open_roots.len() > 3 {
+                drop(open_roots.pop_front());
+            }
+            ntr += 1;
+            std::thread::sleep(Duration::from_micros(40));
+        }
+        open_roots.clear();
+        stop.store(true, Ordering::SeqCst);
+        let cycles: u64 = flushers.into_iter().filter_map(|h| h.join().ok()).sum();
+        fastrace::flush();
+        fastrace::flush();
+        let mut bad: Vec<String> = vec![];
+        let mut cnt: HashMap<(u128, String), usize> = HashMap::new();
+        for b in reports.lock().unwrap().drain(..) {
+            for rec in b {
+                *cnt.entry(key(&rec)).or_insert(0) += 1;
+            }
+        }
+        let mut wrong = 0;
+        for i in 0..ntr {
+            for nm in ["hm-root", "hm-child"] {
+                if cnt.get(&(base + i as u128, nm.to_string())).copied().unwrap_or(0) != 1 {
+                    wrong += 1;
+                }
+            }
+        }
+        if wrong > 0 {
+            bad.push(format!("{wrong} of {} spans not delivered exactly once", 2 * ntr));
+        }
+        let st = fastrace::verif::collector_stats();
+        if !st.active.is_empty() {
+            bad.push(format!("{} traces retained after everything finished and was flushed", st.active.len()));
+        }
+        let verdict = if bad.is_empty() { "delivered-once".to_string() } else { format!("VIOLATION {}", bad.join("; ")) };
+        let _ = writeln!(out, "L hammer traces={} concurrent_flush_calls={} => {}", ntr, cycles, verdict);
     }
     let _ = writeln!(out, "#stat cflush:scenarios {}", n);
 }
